@@ -2,32 +2,3 @@ import Proofs.Map
 import Proofs.Toks
 import Proofs.Structure
 import Proofs.Range
-import Proofs.StructEdit
-import Proofs.Structure2
-import Proofs.Commute
-import Proofs.CommuteMarkup
-import Proofs.Diff
-import Proofs.Dom
-import Proofs.Fill
-import Proofs.Json
-import Proofs.MarkEffect
-import Proofs.Marks
-import Proofs.Merge
-import Proofs.Regex
-import Proofs.Reinsert
-import Proofs.ReplaceToks
-import Proofs.ReplaceValid
-import Proofs.Resolve
-import Proofs.ResolveNodes
-import Proofs.Respects
-import Proofs.StepMap
-import Proofs.StepToks
-import Proofs.StepValid
-import Proofs.TokCore
-import Proofs.Traverse
-import Proofs.Undo
-import Proofs.UndoReplace
-import Proofs.Valid
-import Proofs.CreateFill
-import Proofs.MkNode
-import Proofs.Wrap
